@@ -650,4 +650,35 @@ theorem C06_real_zeros (p bits : Nat) (he : bits / 2 ^ 52 % 2048 = 0) (hm : bits
 example : Pywbem.Model.FloatText.floatOfText "-0.0".toList = some (2 ^ 63) ∧
     Pywbem.Model.FloatText.floatOfText "NaN".toList = some 0x7FF8000000000000 := by decide
 
+/-! ## (10) the module-level tocimxml(value) for arrays (Model/AtomicXml.lean: tocimxmlFn, unpackItem) -/
+
+/-- **arrays of CIM integers print/parse losslessly, falsy and NULL items included**: for every integer type and every
+    list (or tuple) whose items are None or in-range values of that type — 0 included — the module-level tocimxml()
+    writes a VALUE.ARRAY whose items are read back, one by one, as exactly the items that were written: only None
+    becomes VALUE.NULL (SEND_VALUE_NULL as configured in the repo), and a zero is not NULL. -/
+theorem C06_tocimxml_array_roundtrip_int (f17 f11 : Nat → List Char) (utf8 : List Nat → Option (List Char))
+    (pf : List Char → Option Nat) (t : IntTy) (l : List Sc)
+    (h : ∀ s ∈ l, s = .none ∨ ∃ v, s = .cimInt t v ∧ t.specLo ≤ v ∧ v ≤ t.specHi) :
+    ∃ xs, tocimxmlCfg f17 f11 utf8 (.list l) = .ok (.valueArray xs) ∧
+      xs.mapM (unpackItem pf (.num (.int t))) = .ok l := by
+  have h' : ∀ s ∈ l, s = .none ∨ ∃ v, s = .cimInt t v ∧ t.lo ≤ v ∧ v ≤ t.hi := by
+    intro s hs
+    rcases h s hs with h1 | ⟨v, h1, h2, h3⟩
+    · exact Or.inl h1
+    · exact Or.inr ⟨v, h1, by rw [(limits_spec t).1]; exact h2, by rw [(limits_spec t).2]; exact h3⟩
+  obtain ⟨xs, h1, h2⟩ := array_rt_int f17 f11 utf8 pf t l h'
+  refine ⟨xs, ?_, h2⟩
+  have hs : Pywbem.Generated.sendValueNull = true := by decide
+  simp [tocimxmlCfg, tocimxmlFn, hs, h1, Except.map]
+
+/-- a falsy item is a value, not NULL; None is VALUE.NULL; None as the whole value is rejected with ValueError -/
+theorem C06_tocimxml_falsy_items_are_values (f17 f11 : Nat → List Char) (utf8 : List Nat → Option (List Char)) (t : IntTy) :
+    tocimxmlItem f17 f11 utf8 true (.cimInt t 0) = .ok (.value (some ['0'])) ∧
+    tocimxmlItem f17 f11 utf8 true (.bool false) = .ok (.value (some "FALSE".toList)) ∧
+    tocimxmlItem f17 f11 utf8 true (.str []) = .ok (.value (some [])) ∧
+    tocimxmlItem f17 f11 utf8 true .none = .ok .valueNull ∧
+    tocimxmlCfg f17 f11 utf8 (.sc .none) = .error .valueError := by
+  refine ⟨?_, rfl, rfl, rfl, rfl⟩
+  simp [tocimxmlItem, atomicToCimXml, intStr, natDigits_eq, digitChar, Except.map]
+
 end C06
